@@ -364,9 +364,6 @@ theorem ops_entries (tid : Nat) (content : FName → List Nat) (g : Nat) (order 
     rw [ih]
     cases e <;> simp [entryCalls, entryOps, ← ops_moveFile g, ops]
 
-def streamEntries (order : List DirEnt) : List FName :=
-  order.filterMap fun e => match e with | .f n => some n | _ => none
-
 theorem foreign_dots (τ tid : Nat) (content : FName → List Nat) (d : List DirEnt) (h : streamEntries d = []) :
     ∀ op ∈ d.flatMap (entryOps tid content), Foreign τ op := by
   intro op hop
